@@ -261,6 +261,9 @@ def main(kind, pid, seed, jobs):
     if kind == 'seeded' and os.environ.get('VERIF_SELFTEST_SEEDS'):
         kind = 'seeded-multiseed'
         summary['seeds'] = os.environ['VERIF_SELFTEST_SEEDS']
+        summary['missed_under_some_seed'] = {
+            r['seeded']: [sd for sd, k in r.get('per_seed', {}).items() if not k]
+            for r in res if r.get('killed') is False}
     if not pid:
         with open(os.path.join(HERE, 'evidence', 'selftest-%s.json' % kind), 'w') as f:
             json.dump({'summary': summary, 'results': res}, f, indent=1, sort_keys=True)
